@@ -1,0 +1,39 @@
+//go:build verif
+
+package lql
+
+import (
+	"strings"
+	"time"
+
+	"github.com/alecthomas/participle/lexer"
+)
+
+// VerifC12Token is one token as the LQL parser sees it (after participle's Unquote mapping of String tokens).
+type VerifC12Token struct {
+	Type  string // Keyword | Ident | String | Operator | Number | Tags
+	Value string
+}
+
+// VerifC12Tokens exposes the token stream of the LQL parser's lexer to the verification harness (C12).
+func VerifC12Tokens(s string) ([]VerifC12Token, error) {
+	toks, err := parserLql.Lex(strings.NewReader(s))
+	if err != nil {
+		return nil, err
+	}
+	names := map[rune]string{}
+	for n, r := range lqlLexer.Symbols() {
+		names[r] = n
+	}
+	res := make([]VerifC12Token, 0, len(toks))
+	for _, t := range toks {
+		if t.Type == lexer.EOF {
+			continue
+		}
+		res = append(res, VerifC12Token{Type: names[t.Type], Value: t.Value})
+	}
+	return res, nil
+}
+
+// VerifC12ParseDateTime exposes parseLqlDateTime (the DateTime capture hook's parser) to the verification harness (C12).
+func VerifC12ParseDateTime(dt string) (time.Time, error) { return parseLqlDateTime(dt) }
